@@ -396,8 +396,12 @@ def random_spec(rng, **o):
             trows = np.sort(rng.permutation(ns)[:k]).astype(np.int64)
         s.template_feature_spike_ids = trows
         s.template_features = rng.normal(0, 1, size=(ns if trows is None else len(trows), nloc)).astype(np.float32)
-        s.template_feature_ind = np.stack(
-            [rng.permutation(nt)[:nloc] for _ in range(nt)]).astype(g('dtype_ind', 'int32'))
+        tfi = np.stack([rng.permutation(nt)[:nloc] for _ in range(nt)]).astype(np.int64)
+        if g('tfeat_pad', False) and nloc >= 2 and np.dtype(g('dtype_ind', 'int32')).kind == 'i':
+            pad = rng.random(tfi.shape) < 0.3
+            pad[:, 0] = False                                # the first slot is always used
+            tfi[pad] = -1                                    # unused slots are padded with -1
+        s.template_feature_ind = tfi.astype(g('dtype_ind', 'int32'))
     raw = g('raw', 'none')
     if raw != 'none':
         dt = np.dtype(raw)
